@@ -149,6 +149,8 @@ def run(tier, seed, replay):
         for msg in diff.get("mismatches", []):
             pm = Probe("differential/" + msg["cfg"], ["// " + msg["text"]], "accept", "differential")
             pm.verdict = "reject"
+            if msg.get("replay"):
+                pm.meta["replay"] = msg["replay"]
             unexpected.append((pm, "differential:" + msg["kind"], msg["text"]))
     rule = ("(i) link probe: #![no_std] staticlib without global allocator against both feature sets; (ii) compile probes against --no-default-features: heap backend absent, default backend capacity 0 and not resizable, 12 operation-set programs on stack-backed vectors (same programs are the reference on the default build); "
             "(iii) the generated C01/C02/C11 one-step cases and proptest histories on the stack configurations run in both feature sets and compared by per-configuration digest; non-trivial = probes with a definite verdict, differential cases as in C01/C02/C11")
@@ -196,7 +198,9 @@ def differential(tier, seed):
            "per_config_default": a["per_config"], "per_config_noalloc": b["per_config"], "digests_equal": a.get("digests") == b.get("digests")}
     for tag, j in outs.items():
         for v in j["violations"]:
-            res["mismatches"].append({"cfg": v["cfg"], "kind": "model:" + v["sig"], "text": "[%s feature set] %s: %s :: %s" % ("default" if tag == "rel" else "no-default-features", v["cfg"], v["msg"], v["trace"][:300])})
+            import re as _re
+            m = _re.search(r"\[replay=([^\]]+)\]", v["trace"])
+            res["mismatches"].append({"cfg": v["cfg"], "kind": "model:" + v["sig"], "replay": m.group(1) if m else None, "text": "[%s feature set] %s: %s :: %s" % ("default" if tag == "rel" else "no-default-features", v["cfg"], v["msg"], v["trace"][:300])})
     da, db = a.get("digests", {}), b.get("digests", {})
     for cfg in sorted(set(da) | set(db)):
         if da.get(cfg) != db.get(cfg):
